@@ -75,6 +75,24 @@ type letter struct {
 	// something after it; as a whole it is not one JSON document (Kind = non-JSON)
 	Trail bool
 	Lead  string
+	// BadPayload: a subscribe/start whose payload cannot be decoded into the subscribe payload
+	BadPayload bool
+}
+
+var badPayloads = []struct{ name, member string }{
+	{"payload missing", ``},
+	{"string payload", `,"payload":"x"`},
+	{"array payload", `,"payload":[1]`},
+	{"query is a number", `,"payload":{"query":1}`},
+}
+
+func badPayloadLetters(verb string) []letter {
+	var out []letter
+	for _, b := range badPayloads {
+		out = append(out, letter{Name: verb + "(1," + b.name + ")", Kind: kSubscribe, ID: "1", BadPayload: true,
+			Raw: `{"id":"1","type":"` + verb + `"` + b.member + `}`})
+	}
+	return out
 }
 
 // trailing content appended to a complete valid message
@@ -138,6 +156,11 @@ func alphabet(p proto) []letter {
 		second = `{"id":"1","type":"stop"}`
 	}
 	al = append(al, trailLetters(valid, second)...)
+	if p == protoLegacy {
+		al = append(al, badPayloadLetters("start")...)
+	} else {
+		al = append(al, badPayloadLetters("subscribe")...)
+	}
 	alphabetCache[p] = al
 	return al
 }
@@ -187,6 +210,8 @@ const (
 	// every read fails from now on (each failed read takes readFailDur of virtual time)
 	// until the handler gives the connection up or readHorizon reads have failed
 	envReadErrPersist = "read-errors-persist"
+	// the executions that were cancelled earlier and held back (message mode "hold") return now
+	envCancelledReturn = "cancelled-executions-return"
 )
 
 // token is one step of an execution: a client message (with the way its
@@ -237,7 +262,8 @@ type ev struct {
 	Cause string // what the harness did in the step in which this was recorded
 	Raw   string
 	Msg   int    // index of the client message being (or last) delivered, -1 before the first
-	Lead  string // c: kind of the complete valid message a trailing-content frame begins with
+	Lead  string // c: kind of the complete valid message a trailing-content frame begins with; xdone(cancelled): kind of the operation
+	Bad   bool   // c: subscribe/start with an undecodable payload
 }
 
 func (e ev) String() string {
@@ -266,6 +292,10 @@ func (e ev) String() string {
 		return "x:done(" + e.ID + "," + e.Type + ")"
 	case "xtick":
 		return "x:tick(" + e.ID + "," + e.Type + ")"
+	case "xsilent":
+		return "x:cancelled-by-the-server(" + e.ID + ")"
+	case "readhorizon":
+		return "x:read-horizon"
 	}
 	return e.K
 }
@@ -331,6 +361,8 @@ type harness struct {
 	readErrElapses time.Time // when the armed timer fires
 	persist        int       // reads that still have to fail in the current burst
 	persistOn      bool
+	cancelledNow   bool // a cancelled execution returned during the current step
+	heldNow        bool // a cancelled execution was held back during the current step
 }
 
 func (h *harness) rec(e ev) {
@@ -481,6 +513,8 @@ type stubExec struct {
 	tickM     string // "ok" | "err"
 	late      bool   // the harness decided to leave the first Execute blocked
 	announced bool   // x:execute has been written into the word
+	held      bool   // cancelled while executing, and the harness holds its return back (slow tear-down)
+	serial    int    // number of this executor on the connection (Code of its x events)
 	n         int
 	typ       ast.OperationType     // as derived by the real graphql.Request / ExecutorV2
 	real      subscription.Executor // the real ExecutorV2 for documents of undeterminable type (its Execute is used)
@@ -539,6 +573,7 @@ func (p *stubPool) Get(payload []byte) (subscription.Executor, error) {
 		e.real = real
 	}
 	h.execs = append(h.execs, e)
+	e.serial = len(h.execs)
 	h.rec(ev{K: "xget", ID: id})
 	return e, nil
 }
@@ -608,7 +643,11 @@ func (e *stubExec) Execute(w resolve.SubscriptionResponseWriter) error {
 			<-e.resume
 			h.mu.Lock()
 			e.state = stReturned
-			h.rec(ev{K: "xdone", ID: e.id, Type: "cancelled"})
+			kind := "query/mutation"
+			if e.sub {
+				kind = "subscription"
+			}
+			h.rec(ev{K: "xdone", ID: e.id, Type: "cancelled", Lead: kind, Code: e.serial})
 			h.mu.Unlock()
 			return e.ctx.Err()
 		}
@@ -636,6 +675,7 @@ type runResult struct {
 	Closed          bool     // transport closed before the final phase
 	Enabled         []string // environment events enabled at the end of the path
 	Executed        bool     // the last token was a message that brought an execution to the gate
+	Cancelled       bool     // the last token was a message that cancelled an in-flight execution (which then returned)
 	Undeliverable   bool     // some token of the path could not be applied
 	HandlerReturned bool
 	Panic           string
@@ -690,6 +730,37 @@ func (h *harness) setCause(c string) {
 
 // reactions: apply the decision for an execution that just reached the gate and
 // let cancelled executions return, one at a time.
+// releaseHeld lets the held cancelled executions return, one at a time.
+func (h *harness) releaseHeld() {
+	for {
+		var x *stubExec
+		h.mu.Lock()
+		for _, e := range h.execs {
+			if e.state == stCancelSeen && e.held {
+				x = e
+				break
+			}
+		}
+		if x != nil {
+			x.held = false
+		}
+		h.mu.Unlock()
+		if x == nil {
+			return
+		}
+		h.reactions("")
+	}
+}
+
+func (h *harness) anyHeld() bool {
+	for _, e := range h.execs {
+		if e.state == stCancelSeen && e.held {
+			return true
+		}
+	}
+	return false
+}
+
 func (h *harness) reactions(mode string) (executed bool) {
 	for {
 		var atGate, cancelled *stubExec
@@ -697,12 +768,17 @@ func (h *harness) reactions(mode string) (executed bool) {
 		for _, e := range h.execs {
 			if !e.announced && (e.state == stAtGate || e.state == stCancelSeen) {
 				e.announced = true
-				h.rec(ev{K: "xexec", ID: e.id})
+				h.rec(ev{K: "xexec", ID: e.id, Code: e.serial})
 			}
 		}
 		for _, e := range h.execs {
-			if e.state == stCancelSeen && cancelled == nil {
-				cancelled = e
+			if e.state == stCancelSeen && !e.held {
+				if mode == "hold" {
+					e.held = true // its return is a later, schedulable event
+					h.heldNow = true
+				} else if cancelled == nil {
+					cancelled = e
+				}
 			}
 			if e.state == stAtGate && e.gate != nil && !e.lateKept() && atGate == nil {
 				atGate = e
@@ -732,6 +808,7 @@ func (h *harness) reactions(mode string) (executed bool) {
 				h.settle()
 			}
 		case cancelled != nil:
+			h.cancelledNow = true
 			h.setCause("execution returns after cancellation")
 			close(cancelled.resume)
 			h.settle()
@@ -771,6 +848,9 @@ func (h *harness) enabled() []string {
 		out = append(out, envKeepAlive)
 	}
 	out = append(out, envReadErr, envReadErrPersist)
+	if h.anyHeld() {
+		out = append(out, envCancelledReturn)
+	}
 	if h.readErrArmed {
 		out = append(out, envReadErrTO)
 	}
@@ -862,7 +942,7 @@ func runScenario(sc scenario) *runResult {
 			h.mu.Lock()
 			h.msgIdx++
 			h.cur = l
-			h.rec(ev{K: "c", Type: l.Kind, ID: l.ID, Raw: l.Raw, Lead: l.Lead})
+			h.rec(ev{K: "c", Type: l.Kind, ID: l.ID, Raw: l.Raw, Lead: l.Lead, Bad: l.BadPayload})
 			h.mu.Unlock()
 			if !h.deliver(inMsg{data: []byte(l.Raw)}) {
 				// handler is not reading although the transport is open
@@ -879,12 +959,19 @@ func runScenario(sc scenario) *runResult {
 				h.initDelivered = true
 			}
 			h.mu.Unlock()
+			h.mu.Lock()
+			h.cancelledNow, h.heldNow = false, false
+			h.mu.Unlock()
 			ex := h.reactions(t.Mode)
+			h.mu.Lock()
+			cn, hn := h.cancelledNow, h.heldNow
+			h.mu.Unlock()
 			if last {
 				res.Executed = ex
+				res.Cancelled = cn
 			}
-			if t.Mode != "" && !ex {
-				res.Undeliverable = true // a mode on a message that starts nothing: not a distinct scenario
+			if (t.Mode == "hold" && !hn) || (t.Mode != "" && t.Mode != "hold" && !ex) {
+				res.Undeliverable = true // a mode on a message it does not apply to: not a distinct scenario
 				break
 			}
 		} else {
@@ -942,6 +1029,12 @@ func runScenario(sc scenario) *runResult {
 				h.mu.Unlock()
 				// whole seconds: the harness stays on its phase grid
 				h.advance(time.Duration(readHorizon) * time.Second)
+			case envCancelledReturn:
+				h.setCause("execution returns after cancellation")
+				h.mu.Lock()
+				h.rec(ev{K: "env", Type: envCancelledReturn})
+				h.mu.Unlock()
+				h.releaseHeld()
 			case envReadErrTO:
 				h.setCause("read-error time-out")
 				h.mu.Lock()
@@ -964,6 +1057,18 @@ func runScenario(sc scenario) *runResult {
 	h.mu.Unlock()
 
 	// ---- final phase
+	// F0: cancelled executions that were held back return now
+	h.mu.Lock()
+	held := h.anyHeld()
+	h.mu.Unlock()
+	if held {
+		h.setCause("execution returns after cancellation")
+		h.mu.Lock()
+		h.rec(ev{K: "env", Type: envCancelledReturn})
+		h.mu.Unlock()
+		h.releaseHeld()
+		h.advance(phaseStep)
+	}
 	// F1: executions still blocked finish now (ascending start order)
 	for {
 		var late *stubExec
@@ -999,6 +1104,26 @@ func runScenario(sc scenario) *runResult {
 		h.advance(phaseStep)
 	}
 	h.mu.Lock()
+	// subscriptions whose context is cancelled although they were started and polling: for each
+	// id the latest execution that was actually started (the acceptor decides whether anybody was
+	// entitled to cancel it)
+	if !h.closed {
+		latest := map[string]*stubExec{}
+		var order []string
+		for _, e := range h.execs {
+			if e.announced {
+				if _, ok := latest[e.id]; !ok {
+					order = append(order, e.id)
+				}
+				latest[e.id] = e
+			}
+		}
+		for _, id := range order {
+			if e := latest[id]; e.sub && e.state == stReturned && e.ctx.Err() != nil {
+				h.rec(ev{K: "xsilent", ID: id})
+			}
+		}
+	}
 	h.rec(ev{K: "end"})
 	h.mu.Unlock()
 	// F3: the client goes away
